@@ -17,29 +17,43 @@
                         included: no content line at column 0 may look like a document marker, and the first
                         line may not start with a tab
            parent       any scanner state (parent indentation = what unroll_non_block_indents leaves, -1 at top level)
-           header       indicators, then white space (blanks, tabs) and an optional comment, then the line feed
+           header       indicators, then white space (blanks, tabs) and an optional comment, then the line break
            lines        ALL line lists of content lines (any extra indentation, whitespace-only content lines, lines
                         that look like YAML, tabs; no break / NUL characters inside) and blank lines (at most
                         `indent` spaces), with at least one content line; auto-detection: the first content line
                         has no extra indentation and is not whitespace-only
-           line breaks  LF
-           end          every line terminated by a line feed, then a less indented line that does not start with a
-                        break, or the end of the input (trailing blank lines are part of the line list), or — content
-                        indentation 0 — a document-end marker line `...` ([ends_after]);
-                        [C05_block_scalar_eof_partial]: the end of the input right after the last content line
-                        (no final line feed);
+           line breaks  LF, CR LF or CR (one style per text; parameter [brk] of [with_breaks]: the text is the rendering
+                        of the specification with every line feed replaced)
+           end          [C05_block_scalar_partial]: every line terminated by a line break, then a less indented line
+                        that does not start with a break, or the end of the input (trailing blank lines are part of
+                        the line list), or — content indentation 0 — a document marker line `...` or `---`
+                        ([ends_after]);
+                        [C05_block_scalar_eof_partial]: the end of the input without a final line feed, in general:
+                        right after the last content line (a whitespace-only line of MORE spaces than the indentation
+                        is such a line), or inside a last line of 1 <= j <= indentation spaces (fewer spaces than the
+                        indentation, or exactly as many) — an empty line, dropped by strip and clip, counted by keep:
+                        the value is that of the same lines with a final line feed;
                         [C05_block_scalar_empty_partial]: NO content line at all — blank lines only (or nothing),
                         then the end of the input (with a final line feed, without, or inside a last line of
-                        spaces: the end-of-stream path) or a line of an enclosing collection
+                        spaces: the end-of-stream path), a line of an enclosing collection, or a document marker
+                        `...` / `---` at column 0
+                        (the input ending on the header line itself is [block_scalar_header_eof], used by T5)
            back-end     string input
-   NOT proved (stated as [C05_full], exercised by the Examples below and by the differential run): a `---` line
-   after content at column 0 and the end of the input inside a whitespace-only last line after content (both are
-   known findings), a document marker after a content-less top-level scalar, CR / CR LF line breaks, the buffered
-   back-ends.  [C05_full] itself is refuted on the faithful model by three input classes
-   (known_findings_c05.jsonl); the witnesses are theorems below. *)
+     T5  [C05_case_partial]: T4 restated on the cases of the specification — for EVERY [bcase] with [case_ok] outside
+         the leading-tab class, in every break style, from any scanner state at the indicator with the parent
+         indentation of the case: the token is (style, [case_value]); all side conditions of T4 are discharged from
+         [case_ok] (Proofs/BlockScalarCase.v).
+   NOT proved (stated as [C05_full], exercised by the Examples below and by the differential run): the syntactic
+   contexts in front of the indicator (that the scanner reaches scan_block_scalar in the state T5 assumes), the buffered
+   back-ends.  [C05_full] itself is refuted on
+   the faithful model by ONE remaining input class (known_findings_c05.jsonl): a top-level scalar with auto-detected
+   indentation whose first line starts with a tab at column 0 is rejected; the witness is a theorem below.  The three
+   classes that refuted it before (end of the input inside a last line of spaces under clip and under keep, `---`
+   after content at column 0) were repaired in /repo (42046c7, 001a921): they are inside T4 now, and their former
+   witnesses are Examples of agreement. *)
 From Coq Require Import List NArith ZArith Bool Arith Lia.
 Import ListNotations.
-Require Import Parser SBase SPrim SDir SScalar SFetch Pipe SBuf Drivers BlockScalar BlockScalarProofs.
+Require Import Parser SBase SPrim SDir SScalar SFetch Pipe SBuf Drivers BlockScalar BlockScalarProofs BlockScalarCase.
 Open Scope N_scope.
 
 (* ---- T1 ---- *)
@@ -59,10 +73,10 @@ Proof. exact chomp_tail. Qed.
 Print Assumptions C05_chomp_tail.
 
 (* ---- T2 ---- *)
-Theorem C05_content_line : forall (txt rest : list chr) F acc s lk m w,
+Theorem C05_content_line : forall brk (txt rest : list chr) F acc s lk m w,
   nobreak txt -> is_breakz (hd0 rest) = true -> (length txt < F)%nat ->
   scan_block_scalar_content_line str_ops F acc (mv s (txt ++ rest) lk m w)
-  = Ok (rev txt ++ acc, mv s rest lk (mark_after m txt) w).
+  = Ok (rev txt ++ acc, mv s rest lk (mark_after brk m txt) w).
 Proof. exact content_line_spec. Qed.
 Print Assumptions C05_content_line.
 
@@ -75,7 +89,7 @@ Theorem C05_skip_spaces_to : forall k (rest : list chr) f indent cb s lk m w j,
 Proof. exact skip_spaces_to_spec. Qed.
 Print Assumptions C05_skip_spaces_to.
 
-Theorem C05_block_scalar_indent : forall ks k (rest : list chr) F fuel indent breaks s lk m,
+Theorem C05_block_scalar_indent : forall brk, break_style brk -> forall ks k (rest : list chr) F fuel indent breaks s lk m,
   m_col m = 0 ->
   Forall (fun k => N.of_nat k <= indent) ks ->
   hd0 rest <> 32 ->
@@ -83,33 +97,33 @@ Theorem C05_block_scalar_indent : forall ks k (rest : list chr) F fuel indent br
   (length ks < fuel)%nat ->
   Forall (fun k => (k < F)%nat) (k :: ks) ->
   exists lk', (lk <= lk')%nat /\ lk' <> O /\
-  skip_block_scalar_indent str_ops F fuel indent breaks (mv s (blank_lines ks ++ sps k ++ rest) lk m true)
+  skip_block_scalar_indent str_ops F fuel indent breaks (mv s (blank_lines brk ks ++ sps k ++ rest) lk m true)
   = Ok (breaks + N.of_nat (length ks),
         mv s (sps (k - Nat.min k (N.to_nat indent)) ++ rest) lk'
-           (mark_after m (blank_lines ks ++ sps (Nat.min k (N.to_nat indent)))) true).
+           (mark_after brk m (blank_lines brk ks ++ sps (Nat.min k (N.to_nat indent)))) true).
 Proof. exact skip_block_scalar_indent_spec. Qed.
 Print Assumptions C05_block_scalar_indent.
 
-Theorem C05_first_line_indent : forall ks k (rest : list chr) F fuel maxi breaks s lk m,
+Theorem C05_first_line_indent : forall brk, break_style brk -> forall ks k (rest : list chr) F fuel maxi breaks s lk m,
   m_col m = 0 ->
   hd0 rest <> 32 -> is_break (hd0 rest) = false ->
   (length ks < fuel)%nat -> Forall (fun k => (k < F)%nat) (k :: ks) ->
   exists lk', (lk <= lk')%nat /\ lk' <> O /\
-  skip_first_line_indent str_ops F fuel maxi breaks (mv s (blank_lines ks ++ sps k ++ rest) lk m true)
+  skip_first_line_indent str_ops F fuel maxi breaks (mv s (blank_lines brk ks ++ sps k ++ rest) lk m true)
   = Ok ((N.max maxi (N.of_nat (maxl ks k)), breaks + N.of_nat (length ks)),
-        mv s rest lk' (mark_after m (blank_lines ks ++ sps k)) true).
+        mv s rest lk' (mark_after brk m (blank_lines brk ks ++ sps k)) true).
 Proof. exact skip_first_line_indent_spec. Qed.
 Print Assumptions C05_first_line_indent.
 
 (* ---- T4 ---- *)
-Theorem C05_block_scalar_partial : forall (s : sc strin) F literal c (explicit : option nat) (digit_first : bool) (hc : list chr)
+Theorem C05_block_scalar_partial : forall brk (s : sc strin) F literal c (explicit : option nat) (digit_first : bool) (hc : list chr)
     (lines : list bline) (j : nat) (r' : list chr) (n : nat) pz inds,
-  si_chars (sc_in s) = render_block n literal c explicit digit_first hc lines (EofRest (sps j ++ r')) ->
+  si_chars (sc_in s) = with_breaks brk (render_block n literal c explicit digit_first hc lines (EofRest [])) ++ sps j ++ r' ->
   unroll_nb (sc_indents s) (sc_indent s) = (pz, inds) ->
   header_tail hc -> (2 * length hc + 2 < F)%nat ->
   Forall (line_ok F n) lines -> Forall (line_col0 n) lines -> (n = O -> first_char n lines <> 9) ->
   (S (length lines) < F)%nat -> has_text lines = true ->
-  ends_after n j r' -> hd0 r' <> 32 -> is_break (hd0 r') = false -> (r' = [] -> j = O) ->
+  ends_after n j r' -> hd0 r' <> 32 -> is_break (hd0 r') = false -> (r' = [] -> j = O) -> (r' <> [] -> hd0 r' <> 0) ->
   match explicit with
   | Some d => (1 <= d <= 9)%nat /\ N.of_nat n = (if (0 <=? pz)%Z then Z.to_N (pz + Z.of_N (N.of_nat d)) else N.of_nat d)
   | None => Z.to_N (pz + 1) <= N.of_nat n /\ exists txt, first_text lines = Some (O, txt) /\ txt <> []
@@ -117,17 +131,17 @@ Theorem C05_block_scalar_partial : forall (s : sc strin) F literal c (explicit :
   exists sp s', scan_block_scalar str_ops F literal s
                 = Ok ((sp, TScalar (if literal then Literal else Folded) (block_value literal c lines)), s')
                 /\ si_chars (sc_in s') = r'.
-Proof. exact block_scalar_lines. Qed.
+Proof. exact block_scalar_lines_k. Qed.
 Print Assumptions C05_block_scalar_partial.
 
-Theorem C05_block_scalar_eof_partial : forall (s : sc strin) F literal c (explicit : option nat) (digit_first : bool) (hc : list chr)
+Theorem C05_block_scalar_eof_partial : forall brk (s : sc strin) F literal c (explicit : option nat) (digit_first : bool) (hc : list chr)
     (lines : list bline) (n : nat) pz inds,
-  si_chars (sc_in s) = render_block n literal c explicit digit_first hc lines EofNone ->
+  si_chars (sc_in s) = with_breaks brk (render_block n literal c explicit digit_first hc lines EofNone) ->
   unroll_nb (sc_indents s) (sc_indent s) = (pz, inds) ->
   header_tail hc -> (2 * length hc + 2 < F)%nat ->
   Forall (line_ok F n) lines -> Forall (line_col0 n) lines -> (n = O -> first_char n lines <> 9) ->
   (S (length lines) < F)%nat -> has_text lines = true ->
-  trailing_blanks lines = O ->
+  last_line_nonempty lines ->
   match explicit with
   | Some d => (1 <= d <= 9)%nat /\ N.of_nat n = (if (0 <=? pz)%Z then Z.to_N (pz + Z.of_N (N.of_nat d)) else N.of_nat d)
   | None => Z.to_N (pz + 1) <= N.of_nat n /\ exists txt, first_text lines = Some (O, txt) /\ txt <> []
@@ -135,18 +149,18 @@ Theorem C05_block_scalar_eof_partial : forall (s : sc strin) F literal c (explic
   exists sp s', scan_block_scalar str_ops F literal s
                 = Ok ((sp, TScalar (if literal then Literal else Folded) (block_value literal c lines)), s')
                 /\ si_chars (sc_in s') = [].
-Proof. exact block_scalar_lines_eof. Qed.
+Proof. exact block_scalar_lines_eof_k. Qed.
 Print Assumptions C05_block_scalar_eof_partial.
 
-Theorem C05_block_scalar_empty_partial : forall (s : sc strin) F literal c (explicit : option nat) (digit_first : bool)
+Theorem C05_block_scalar_empty_partial : forall brk (s : sc strin) F literal c (explicit : option nat) (digit_first : bool)
     (hc : list chr) (ks : list nat) (j : nat) (r' : list chr) pz inds,
-  si_chars (sc_in s) = header literal c explicit digit_first ++ hc ++ 10 :: blank_lines ks ++ sps j ++ r' ->
+  si_chars (sc_in s) = header literal c explicit digit_first ++ hc ++ kbrk brk ++ blank_lines (kbrk brk) ks ++ sps j ++ r' ->
   unroll_nb (sc_indents s) (sc_indent s) = (pz, inds) ->
   header_tail hc -> (2 * length hc + 2 < F)%nat ->
   Forall (fun k => (k < F)%nat) (j :: ks) -> (S (length ks) < F)%nat ->
-  hd0 r' <> 32 -> is_break (hd0 r') = false -> hd0 (blank_lines ks ++ sps j ++ r') <> 9 ->
-  (* the end of the input, or a line that belongs to an enclosing collection *)
-  (r' = [] \/ (hd0 r' <> 0 /\ (Z.of_nat j <= pz)%Z)) ->
+  hd0 r' <> 32 -> is_break (hd0 r') = false -> hd0 (blank_lines (kbrk brk) ks ++ sps j ++ r') <> 9 ->
+  (* the end of the input, a line that belongs to an enclosing collection, or a document marker at column 0 *)
+  (r' = [] \/ (hd0 r' <> 0 /\ (Z.of_nat j <= pz)%Z) \/ (j = O /\ doc_ind_b r' = true)) ->
   match explicit with
   | Some d => (1 <= d <= 9)%nat /\
               let n := if (0 <=? pz)%Z then Z.to_N (pz + Z.of_N (N.of_nat d)) else N.of_nat d in
@@ -156,7 +170,7 @@ Theorem C05_block_scalar_empty_partial : forall (s : sc strin) F literal c (expl
   exists sp s', scan_block_scalar str_ops F literal s
                 = Ok ((sp, TScalar (if literal then Literal else Folded) (block_value literal c (empty_lines ks j r'))), s')
                 /\ si_chars (sc_in s') = r'.
-Proof. exact block_scalar_empty. Qed.
+Proof. exact block_scalar_empty_k. Qed.
 Print Assumptions C05_block_scalar_empty_partial.
 
 From Coq Require Import String.
@@ -169,7 +183,7 @@ Example C05_block_scalar_partial_instance :
   exists sp s', scan_block_scalar str_ops 40 true (init_sc {| si_chars := L "|-/  x//   y/ /z"; si_look := 0 |})
                 = Ok ((sp, TScalar Literal (L "x// y")), s') /\ si_chars (sc_in s') = L "z".
 Proof.
-  apply (block_scalar_lines _ 40 true CStrip None false [] [Text 0 (L "x"); Blank 0; Text 1 (L "y"); Blank 1] O (L "z") 2 (-1)%Z []).
+  apply (block_scalar_lines_k 0 _ 40 true CStrip None false [] [Text 0 (L "x"); Blank 0; Text 1 (L "y"); Blank 1] O (L "z") 2 (-1)%Z []).
   - reflexivity.
   - reflexivity.
   - apply ht_white. constructor.
@@ -183,13 +197,14 @@ Proof.
   - discriminate.
   - reflexivity.
   - discriminate.
+  - discriminate.
   - split; [cbn; discriminate|]. exists (L "x"). split; [reflexivity|discriminate].
 Qed.
 Example C05_block_scalar_partial_instance_folded :   (* with a header comment *)
   exists sp s', scan_block_scalar str_ops 60 false (init_sc {| si_chars := L ">2+ # c/  x/  y//   z/  w/ /k: v"; si_look := 0 |})
                 = Ok ((sp, TScalar Folded (L "x y// z/w//")), s') /\ si_chars (sc_in s') = L "k: v".
 Proof.
-  apply (block_scalar_lines _ 60 false CKeep (Some 2%nat) true (L " # c")
+  apply (block_scalar_lines_k 0 _ 60 false CKeep (Some 2%nat) true (L " # c")
            [Text 0 (L "x"); Text 0 (L "y"); Blank 0; Text 1 (L "z"); Text 0 (L "w"); Blank 1] O (L "k: v") 2 (-1)%Z []).
   - reflexivity.
   - reflexivity.
@@ -204,14 +219,16 @@ Proof.
   - discriminate.
   - reflexivity.
   - discriminate.
+  - discriminate.
   - split; [lia|reflexivity].
 Qed.
-(* content at column 0 of a top-level scalar, ended by a document-end marker; and by the end of the input *)
+(* content at column 0 of a top-level scalar, ended by a document-end marker; by a document-start marker (the class
+   repaired by 001a921); and by the end of the input *)
 Example C05_block_scalar_partial_instance_column0 :
   exists sp s', scan_block_scalar str_ops 40 false (init_sc {| si_chars := L ">/a/b/ c//... # end/"; si_look := 0 |})
                 = Ok ((sp, TScalar Folded (L "a b/ c/")), s') /\ si_chars (sc_in s') = L "... # end/".
 Proof.
-  apply (block_scalar_lines _ 40 false CClip None false [] [Text 0 (L "a"); Text 0 (L "b"); Text 1 (L "c"); Blank 0]
+  apply (block_scalar_lines_k 0 _ 40 false CClip None false [] [Text 0 (L "a"); Text 0 (L "b"); Text 1 (L "c"); Blank 0]
            O (L "... # end/") O (-1)%Z []).
   - reflexivity.
   - reflexivity.
@@ -222,17 +239,18 @@ Proof.
   - discriminate.
   - cbn. lia.
   - reflexivity.
-  - right. repeat split. right. reflexivity.
+  - right. right. repeat split.
   - discriminate.
   - reflexivity.
   - discriminate.
+  - discriminate.
   - split; [cbn; lia|]. exists (L "a"). split; [reflexivity|discriminate].
 Qed.
-Example C05_block_scalar_eof_partial_instance :
-  exists sp s', scan_block_scalar str_ops 40 true (init_sc {| si_chars := L "|+/x/ y"; si_look := 0 |})
-                = Ok ((sp, TScalar Literal (L "x/ y/")), s') /\ si_chars (sc_in s') = [].
+Example C05_block_scalar_partial_instance_document_start :   (* "|\na\n---\nb\n": the scalar is "a\n", `---` is left *)
+  exists sp s', scan_block_scalar str_ops 40 true (init_sc {| si_chars := L "|/a/---/b/"; si_look := 0 |})
+                = Ok ((sp, TScalar Literal (L "a/")), s') /\ si_chars (sc_in s') = L "---/b/".
 Proof.
-  apply (block_scalar_lines_eof _ 40 true CKeep None false [] [Text 0 (L "x"); Text 1 (L "y")] O (-1)%Z []).
+  apply (block_scalar_lines_k 0 _ 40 true CClip None false [] [Text 0 (L "a")] O (L "---/b/") O (-1)%Z []).
   - reflexivity.
   - reflexivity.
   - apply ht_white. constructor.
@@ -242,15 +260,146 @@ Proof.
   - discriminate.
   - cbn. lia.
   - reflexivity.
+  - right. right. repeat split.
+  - discriminate.
   - reflexivity.
+  - discriminate.
+  - discriminate.
+  - split; [cbn; lia|]. exists (L "a"). split; [reflexivity|discriminate].
+Qed.
+Example C05_block_scalar_eof_partial_instance :
+  exists sp s', scan_block_scalar str_ops 40 true (init_sc {| si_chars := L "|+/x/ y"; si_look := 0 |})
+                = Ok ((sp, TScalar Literal (L "x/ y/")), s') /\ si_chars (sc_in s') = [].
+Proof.
+  apply (block_scalar_lines_eof_k 0 _ 40 true CKeep None false [] [Text 0 (L "x"); Text 1 (L "y")] O (-1)%Z []).
+  - reflexivity.
+  - reflexivity.
+  - apply ht_white. constructor.
+  - cbn. lia.
+  - lines_ok.
+  - lines_ok.
+  - discriminate.
+  - cbn. lia.
+  - reflexivity.
+  - exact I.
   - split; [cbn; lia|]. exists (L "x"). split; [reflexivity|discriminate].
+Qed.
+
+(* The end of the input inside a last line of spaces, after content, as a mapping value (parent indentation 0,
+   content indentation 2): fewer spaces than the indentation, exactly as many (both: an empty line — clip gives one
+   final line feed, keep two), and more (a content line of one space).  The first two were wrong before 42046c7
+   (keep dropped the short line, clip doubled the line feed after the exact one). *)
+Definition in_map_value (t : list N) : sc strin :=
+  set_indent 0%Z [{| in_indent := (-1)%Z; in_needs_block_end := true |}] (init_sc {| si_chars := t; si_look := 0 |}).
+Definition scans_to (lit : bool) (t v : list N) : Prop :=
+  exists sp s', scan_block_scalar str_ops 40 lit (in_map_value t) = Ok ((sp, TScalar (if lit then Literal else Folded) v), s')
+                /\ si_chars (sc_in s') = [].
+Ltac eof_instance lit c lines :=
+  unfold scans_to;
+  apply (block_scalar_lines_eof_k 0 _ 40 lit c None false [] lines 2 0%Z [{| in_indent := (-1)%Z; in_needs_block_end := true |}]);
+  [reflexivity|reflexivity|apply ht_white; constructor|cbn; lia|lines_ok|lines_ok|discriminate|cbn; lia|reflexivity|exact I|
+   split; [cbn; lia|exists (L "x"); split; [reflexivity|discriminate]]].
+Example C05_eof_fewer_spaces_clip : scans_to true (L "|/  x/ ") (L "x/").
+Proof. eof_instance true CClip [Text 0 (L "x"); Blank 1]. Qed.
+Example C05_eof_fewer_spaces_keep : scans_to true (L "|+/  x/ ") (L "x//").
+Proof. eof_instance true CKeep [Text 0 (L "x"); Blank 1]. Qed.
+Example C05_eof_fewer_spaces_strip : scans_to true (L "|-/  x/ ") (L "x").
+Proof. eof_instance true CStrip [Text 0 (L "x"); Blank 1]. Qed.
+Example C05_eof_exact_spaces_clip : scans_to true (L "|/  x/  ") (L "x/").
+Proof. eof_instance true CClip [Text 0 (L "x"); Blank 2]. Qed.
+Example C05_eof_exact_spaces_keep : scans_to true (L "|+/  x/  ") (L "x//").
+Proof. eof_instance true CKeep [Text 0 (L "x"); Blank 2]. Qed.
+Example C05_eof_more_spaces_clip : scans_to true (L "|/  x/   ") (L "x/ /").
+Proof. eof_instance true CClip [Text 0 (L "x"); Text 1 []]. Qed.
+Example C05_eof_more_spaces_keep : scans_to true (L "|+/  x/   ") (L "x/ /").
+Proof. eof_instance true CKeep [Text 0 (L "x"); Text 1 []]. Qed.
+Example C05_eof_more_spaces_strip : scans_to true (L "|-/  x/   ") (L "x/ ").
+Proof. eof_instance true CStrip [Text 0 (L "x"); Text 1 []]. Qed.
+(* folded, after blank lines: "x y" then two empty lines and a last line of one space *)
+Example C05_eof_folded_keep : scans_to false (L ">+/  x/  y/// ") (L "x y////").
+Proof. eof_instance false CKeep [Text 0 (L "x"); Text 0 (L "y"); Blank 0; Blank 0; Blank 1]. Qed.
+Example C05_eof_folded_clip : scans_to false (L ">/  x/  y///  ") (L "x y/").
+Proof. eof_instance false CClip [Text 0 (L "x"); Text 0 (L "y"); Blank 0; Blank 0; Blank 2]. Qed.
+(* the value does not depend on the final line break: the same lines with a final line feed *)
+Example C05_eof_same_with_final_newline :
+  block_value true CKeep [Text 0 (L "x"); Blank 1] = L "x//" /\ block_value true CClip [Text 0 (L "x"); Blank 2] = L "x/".
+Proof. split; reflexivity. Qed.
+
+(* CR LF and lone CR line breaks: the same theorems, the text of the specification with its line feeds replaced *)
+Example C05_crlf_text : with_breaks 1 (L "|-/  x//") = [124; 45; 13; 10; 32; 32; 120; 13; 10; 13; 10].
+Proof. reflexivity. Qed.
+Example C05_cr_text : with_breaks 2 (L "|-/  x//") = [124; 45; 13; 32; 32; 120; 13; 13].
+Proof. reflexivity. Qed.
+Example C05_block_scalar_partial_instance_crlf :
+  exists sp s', scan_block_scalar str_ops 40 true
+                  (init_sc {| si_chars := with_breaks 1 (L "|-/  x//   y/ /") ++ L "z"; si_look := 0 |})
+                = Ok ((sp, TScalar Literal (L "x// y")), s') /\ si_chars (sc_in s') = L "z".
+Proof.
+  apply (block_scalar_lines_k 1 _ 40 true CStrip None false [] [Text 0 (L "x"); Blank 0; Text 1 (L "y"); Blank 1] O (L "z") 2 (-1)%Z []).
+  - reflexivity.
+  - reflexivity.
+  - apply ht_white. constructor.
+  - cbn. lia.
+  - lines_ok.
+  - lines_ok.
+  - discriminate.
+  - cbn. lia.
+  - reflexivity.
+  - left. lia.
+  - discriminate.
+  - reflexivity.
+  - discriminate.
+  - discriminate.
+  - split; [cbn; discriminate|]. exists (L "x"). split; [reflexivity|discriminate].
+Qed.
+Example C05_block_scalar_partial_instance_cr_folded :   (* lone CRs, a header comment, a sibling key behind *)
+  exists sp s', scan_block_scalar str_ops 60 false
+                  (init_sc {| si_chars := with_breaks 2 (L ">2+ # c/  x/  y//   z/  w/ /") ++ L "k: v"; si_look := 0 |})
+                = Ok ((sp, TScalar Folded (L "x y// z/w//")), s') /\ si_chars (sc_in s') = L "k: v".
+Proof.
+  apply (block_scalar_lines_k 2 _ 60 false CKeep (Some 2%nat) true (L " # c")
+           [Text 0 (L "x"); Text 0 (L "y"); Blank 0; Text 1 (L "z"); Text 0 (L "w"); Blank 1] O (L "k: v") 2 (-1)%Z []).
+  - reflexivity.
+  - reflexivity.
+  - apply (ht_comment [32] (L " c")); [repeat constructor|discriminate|repeat constructor].
+  - cbn. lia.
+  - lines_ok.
+  - lines_ok.
+  - discriminate.
+  - cbn. lia.
+  - reflexivity.
+  - left. lia.
+  - discriminate.
+  - reflexivity.
+  - discriminate.
+  - discriminate.
+  - split; [lia|reflexivity].
+Qed.
+(* the end of the input inside a last line of one space, CR LF and CR: keep counts the line *)
+Example C05_eof_fewer_spaces_keep_crlf :
+  exists sp s', scan_block_scalar str_ops 40 true (in_map_value (with_breaks 1 (L "|+/  x/ ")))
+                = Ok ((sp, TScalar Literal (L "x//")), s') /\ si_chars (sc_in s') = [].
+Proof.
+  apply (block_scalar_lines_eof_k 1 _ 40 true CKeep None false [] [Text 0 (L "x"); Blank 1] 2 0%Z
+           [{| in_indent := (-1)%Z; in_needs_block_end := true |}]);
+  [reflexivity|reflexivity|apply ht_white; constructor|cbn; lia|lines_ok|lines_ok|discriminate|cbn; lia|reflexivity|exact I|
+   split; [cbn; lia|exists (L "x"); split; [reflexivity|discriminate]]].
+Qed.
+Example C05_eof_exact_spaces_clip_cr :
+  exists sp s', scan_block_scalar str_ops 40 false (in_map_value (with_breaks 2 (L ">/  x/  y/  ")))
+                = Ok ((sp, TScalar Folded (L "x y/")), s') /\ si_chars (sc_in s') = [].
+Proof.
+  apply (block_scalar_lines_eof_k 2 _ 40 false CClip None false [] [Text 0 (L "x"); Text 0 (L "y"); Blank 2] 2 0%Z
+           [{| in_indent := (-1)%Z; in_needs_block_end := true |}]);
+  [reflexivity|reflexivity|apply ht_white; constructor|cbn; lia|lines_ok|lines_ok|discriminate|cbn; lia|reflexivity|exact I|
+   split; [cbn; lia|exists (L "x"); split; [reflexivity|discriminate]]].
 Qed.
 
 Example C05_block_scalar_empty_instance :   (* "- |+\n\n   <eof>" : keep counts the blank line and the line of spaces *)
   exists sp s', scan_block_scalar str_ops 20 true (init_sc {| si_chars := L "|+//   "; si_look := 0 |})
                 = Ok ((sp, TScalar Literal (L "//")), s') /\ si_chars (sc_in s') = [].
 Proof.
-  apply (block_scalar_empty _ 20 true CKeep None false [] [O] 3 [] (-1)%Z []).
+  apply (block_scalar_empty_k 0 _ 20 true CKeep None false [] [O] 3 [] (-1)%Z []).
   - reflexivity.
   - reflexivity.
   - apply ht_white. constructor.
@@ -263,29 +412,93 @@ Proof.
   - left. reflexivity.
   - exact I.
 Qed.
+(* a content-less top-level scalar followed by a document marker: ">2+\n\n \n---\n" is "\n\n" *)
+Example C05_block_scalar_empty_instance_marker :
+  exists sp s', scan_block_scalar str_ops 20 false (init_sc {| si_chars := L ">2+// /---/"; si_look := 0 |})
+                = Ok ((sp, TScalar Folded (L "//")), s') /\ si_chars (sc_in s') = L "---/".
+Proof.
+  apply (block_scalar_empty_k 0 _ 20 false CKeep (Some 2%nat) true [] [O; 1%nat] O (L "---/") (-1)%Z []).
+  - reflexivity.
+  - reflexivity.
+  - apply ht_white. constructor.
+  - cbn. lia.
+  - repeat constructor; lia.
+  - cbn. lia.
+  - discriminate.
+  - reflexivity.
+  - discriminate.
+  - right. right. split; reflexivity.
+  - split; [lia|]. cbn. repeat constructor; lia.
+Qed.
 
-(* ---- the complete statement is false on the faithful model: three classes (known findings) ---- *)
+(* ---- T5: the same, stated on the cases of the specification ---- *)
+(* For EVERY case b of Spec/BlockScalar.v with case_ok b = true (all line lists, both styles, every chomping, explicit
+   or auto-detected indentation, header comment, every end shape, LF / CR LF / CR) that is not in the leading-tab
+   class: from any scanner state at the indicator whose block indentation is the parent indentation of the case, on
+   the string input, with fuel above [case_fuel b], scan_block_scalar returns the token (style, case_value b) and stops
+   at the line that follows the scalar.  [case_block b] is [case_text b] without the text in front of the indicator
+   ([C05_case_text_split]).  What is left to [C05_full]: the scanner reaching scan_block_scalar in such a state from
+   the contexts [ctx], the buffered inputs, and the leading-tab class (where it is false). *)
+Theorem C05_case_partial : forall b (s : sc strin) F inds,
+  case_ok b = true -> leading_tab_b b = false ->
+  si_chars (sc_in s) = case_block b ->
+  unroll_nb (sc_indents s) (sc_indent s) = (parent_z (bc_parent b), inds) ->
+  (case_fuel b < F)%nat ->
+  exists sp s', scan_block_scalar str_ops F (bc_literal b) s
+                = Ok ((sp, TScalar (if bc_literal b then Literal else Folded) (case_value b)), s')
+                /\ si_chars (sc_in s') = case_rest b.
+Proof. exact block_scalar_case. Qed.
+Print Assumptions C05_case_partial.
+
+Theorem C05_case_text_split : forall b, case_text b = with_breaks (bc_brk b) (bc_prefix b) ++ case_block b.
+Proof. exact case_text_split. Qed.
+Print Assumptions C05_case_text_split.
+
+(* a top-level case on the scanner's initial state placed at the indicator *)
+Theorem C05_case_top_partial : forall b F,
+  case_ok b = true -> leading_tab_b b = false -> bc_parent b = None -> (case_fuel b < F)%nat ->
+  exists sp s', scan_block_scalar str_ops F (bc_literal b) (init_sc {| si_chars := case_block b; si_look := 0 |})
+                = Ok ((sp, TScalar (if bc_literal b then Literal else Folded) (case_value b)), s')
+                /\ si_chars (sc_in s') = case_rest b.
+Proof. exact block_scalar_case_top. Qed.
+Print Assumptions C05_case_top_partial.
+
+(* instances: the former refutation witness "|\n a\n " and example 8.10 of the specification in CR LF *)
+Example C05_case_instance_clip_eof :
+  exists sp s', scan_block_scalar str_ops 20 true (init_sc {| si_chars := L "|/ a/ "; si_look := 0 |})
+                = Ok ((sp, TScalar Literal (L "a/")), s') /\ si_chars (sc_in s') = [].
+Proof. apply (block_scalar_case_top former_witness_clip_eof 20); [reflexivity|reflexivity|reflexivity|cbn; lia]. Qed.
+(* the leading-tab witness is in the excluded class, and only there does the scanner differ *)
+Example C05_case_tab_excluded : case_ok witness_tab = true /\ leading_tab_b witness_tab = true.
+Proof. split; reflexivity. Qed.
+
+(* ---- the complete statement is still false on the faithful model: one class (known finding) ---- *)
 Theorem C05_full_refuted : ~ C05_full.
 Proof. exact C05_full_is_refuted. Qed.
 Print Assumptions C05_full_refuted.
 
-Theorem C05_refuted_clip_at_eof :
-  case_ok witness_clip_eof = true /\ case_text witness_clip_eof = L "|/ a/ " /\ case_value witness_clip_eof = L "a/" /\
-  first_block_scalar (fst (scan_str (case_text witness_clip_eof))) = Some (Literal, L "a//").
-Proof. exact witness_clip_eof_fails. Qed.
-Print Assumptions C05_refuted_clip_at_eof.
+(* "|\n\tx\n": the specification gives "\tx\n" (content indentation 0), the scanner stops with error site 82 *)
+Theorem C05_refuted_leading_tab :
+  case_ok witness_tab = true /\ case_text witness_tab = [124; 10; 9; 120; 10] /\ case_value witness_tab = [9; 120; 10] /\
+  first_block_scalar (fst (scan_str (case_text witness_tab))) = None /\
+  (exists m, snd (scan_str (case_text witness_tab)) = SError 82 m).
+Proof. exact witness_tab_fails. Qed.
+Print Assumptions C05_refuted_leading_tab.
 
-Theorem C05_refuted_keep_at_eof :
-  case_ok witness_keep_eof = true /\ case_text witness_keep_eof = L "k: |+/  a/ " /\ case_value witness_keep_eof = L "a//" /\
-  first_block_scalar (fst (scan_str (case_text witness_keep_eof))) = Some (Literal, L "a/").
-Proof. exact witness_keep_eof_fails. Qed.
-Print Assumptions C05_refuted_keep_at_eof.
+(* the same content one line further down is accepted *)
+Example C05_leading_tab_second_line : agrees witness_tab_second_line /\ case_value witness_tab_second_line = [10; 9; 120; 10].
+Proof. exact witness_tab_second_line_ok. Qed.
 
-Theorem C05_refuted_document_start :
-  case_ok witness_doc_start = true /\ case_text witness_doc_start = L "|/a/---/b/" /\ case_value witness_doc_start = L "a/" /\
-  first_block_scalar (fst (scan_str (case_text witness_doc_start))) = Some (Literal, L "a/---/b/").
-Proof. exact witness_doc_start_fails. Qed.
-Print Assumptions C05_refuted_document_start.
+(* the former refutation witnesses (classes repaired by 42046c7 and 001a921) now agree with the specification *)
+Example C05_repaired_clip_at_eof :
+  agrees former_witness_clip_eof /\ case_text former_witness_clip_eof = L "|/ a/ " /\ case_value former_witness_clip_eof = L "a/".
+Proof. exact former_witness_clip_eof_ok. Qed.
+Example C05_repaired_keep_at_eof :
+  agrees former_witness_keep_eof /\ case_text former_witness_keep_eof = L "k: |+/  a/ " /\ case_value former_witness_keep_eof = L "a//".
+Proof. exact former_witness_keep_eof_ok. Qed.
+Example C05_repaired_document_start :
+  agrees former_witness_doc_start /\ case_text former_witness_doc_start = L "|/a/---/b/" /\ case_value former_witness_doc_start = L "a/".
+Proof. exact former_witness_doc_start_ok. Qed.
 
 (* ---- Examples: the model pipeline on the string input and on buffered inputs of capacity 8 and 16 ---- *)
 Ltac run := vm_compute; repeat split.
@@ -347,3 +560,12 @@ Example ex_wide_literal : agrees (mkcase true CKeep None (Some 20%nat) wide_pref
 Proof. run. Qed.
 Example ex_wide_folded : agrees (mkcase false CClip (Some 3%nat) (Some 20%nat) wide_prefix [] [R 23 "wide"; R 23 "path"; R 30 ""; R 23 "end"] EofNone).
 Proof. run. Qed.
+(* T5 on example 8.10 of the specification, CR LF breaks, followed by a trailing comment *)
+Definition ex810_crlf : bcase :=
+  {| bc_literal := false; bc_chomp := CClip; bc_explicit := None; bc_digit_first := false; bc_parent := None;
+     bc_prefix := []; bc_hc := []; bc_raw := ex810; bc_eof := EofRest (L "# Comment/"); bc_brk := 1 |}.
+Example C05_case_instance_ex810_crlf :
+  exists sp s', scan_block_scalar str_ops 60 false (init_sc {| si_chars := case_block ex810_crlf; si_look := 0 |})
+                = Ok ((sp, TScalar Folded (L "/folded line/next line/  * bullet//  * list/  * lines//last line/")), s')
+                /\ si_chars (sc_in s') = with_breaks 1 (L "# Comment/").
+Proof. apply (block_scalar_case_top ex810_crlf 60); [reflexivity|reflexivity|reflexivity|cbn; lia]. Qed.
